@@ -26,3 +26,5 @@ INVARIANT LawFullMarksOnlyAtFullCredit
 INVARIANT LawMonotoneAttempts
 INVARIANT LawOffIsIdentity
 INVARIANT LawMissing
+INVARIANT LawJudgeSensitive
+INVARIANT LawMissingSensitive
